@@ -1,7 +1,99 @@
-import Driver.Proto
-/- driver commands of area `life` (stub until the area is built) -/
-namespace Driver.Life
+import MesonModel.Life.Model
+import Driver.Options
+/-
+Driver commands of area `life` (C08).  One request line is one whole history:
 
-def handle (cmd : String) (fs : List String) : String := "bad-op"
+  hist <top defs>|<sub defs>|<cmd>|<cmd>|…      → one observation per command, joined by `|`
+
+defs  `name=spec,name=spec` (spec as in Driver/Options.lean: `kind/default/y/r`)
+cmd   `su;<dict>`  `rc;<dict>`  `cf;<optdict>`  `wi;<dict>`  `es;<0|1>;<name>;<spec>`  `er;<0|1>;<name>`
+      (dict / optdict / keys / values as in Driver/Options.lean)
+
+observation  `<out>#<core>#<cmdline>#<intro>`
+  out      `ok` | `ok;top:n=v,…` (the get_option values of a (re)configuration, sorted) | `fail`
+  core     `-` | `eff:k=v,…;own:k=v,…;aug:k=v,…;yield:k,…`      (sorted; keys `top:n` / `sub:n`)
+  cmdline  `-` | `k=v,…` in file order
+  intro    `-` | `k=v,…` sorted
+Values are printed as plain text (the harness only uses [A-Za-z0-9_] in names and values).
+-/
+namespace Driver.Life
+open MesonModel.Options MesonModel.Life Driver Driver.Options
+
+def txt (s : List Char) : String := String.ofList s
+
+def showV : Val → String
+  | .str s => txt s
+  | .int n => toString n
+  | .bool b => if b then "true" else "false"
+  | .arr l => "[" ++ ", ".intercalate (l.map txt) ++ "]"
+
+def showK (k : Key) : String :=
+  (match k.sub with | none => "" | some [] => "top:" | some s => txt s ++ ":") ++ txt k.name
+
+/-- as `str(OptionKey)` prints it on the command line / in cmd_line.txt -/
+def showCmdKey (k : Key) : String :=
+  (match k.sub with | none => "" | some [] => ":" | some s => txt s ++ ":") ++ txt k.name
+
+def showR : Except Err Val → String
+  | .ok v => showV v
+  | .error e => "!" ++ showErr e
+
+def parseDefs (f : String) : Defs :=
+  if f.isEmpty then [] else
+  (f.splitOn ",").map (fun e => match e.splitOn "=" with
+    | [k, v] => (decodeStr k, parseSpec v)
+    | _ => default)
+
+def parseCmd (f : String) : Option Cmd :=
+  match f.splitOn ";" with
+  | ["su", d] => some (.setup (parseDict d))
+  | ["rc", d] => some (.reconfigure (parseDict d))
+  | ["cf", a] => some (.configure (parseOptDict a))
+  | ["wi", d] => some (.wipe (parseDict d))
+  | ["es", p, n, sp] => some (.editSet (p == "1") (decodeStr n) (parseSpec sp))
+  | ["er", p, n] => some (.editRemove (p == "1") (decodeStr n))
+  | _ => none
+
+def join (l : List String) : String := ",".intercalate (sortStrs l)
+
+def wlKeys : List Key := [projKey [] sWarningLevel, projKey sSub sWarningLevel]
+
+def showCore (c : Core) : String :=
+  let s := c.store
+  let pk := c.projectKeys
+  "eff:" ++ join ((pk ++ wlKeys).map (fun k => showK k ++ "=" ++ showR (getValueFor s k))) ++
+  ";own:" ++ join (pk.filterMap (fun k => (alookup k s.options).bind (fun id => s.heap[id]?.map (fun o => showK k ++ "=" ++ showV o.value)))) ++
+  ";aug:" ++ join (s.augments.map (fun p => showK p.1 ++ "=" ++ showV p.2)) ++
+  ";yield:" ++ join (pk.filterMap (fun k => (alookup k s.options).bind (fun id => s.heap[id]?.bind (fun o => if o.yielding then some (showK k) else none))))
+
+def showIntro (s : Store) : String :=
+  let pk := (s.options.map (·.1)).filter s.isProjectOption
+  let wl : Key := { name := sWarningLevel, sub := none, machine := .host }
+  join ((pk ++ [wl]).filterMap (fun k => (alookup k s.options).bind (fun id => s.heap[id]?.map (fun o =>
+    (if k.sub.isNone then "top:" ++ txt k.name else showK k) ++ "=" ++ showV o.value))))
+
+def showOut : MesonModel.Life.Out → String
+  | .ok [] => "ok"
+  | .ok msgs => "ok;" ++ join (msgs.map (fun m => (if m.1 == [] then "top:" else txt m.1 ++ ":") ++ txt m.2.1 ++ "=" ++ showV m.2.2))
+  | .failed _ _ => "fail"
+
+def showObs (x : Dir × MesonModel.Life.Out) : String :=
+  showOut x.2 ++ "#" ++ (match x.1.core with | none => "-" | some c => showCore c) ++ "#" ++
+  (match x.1.cmdline with
+   | none => "-"
+   | some cl => ",".intercalate ((cl.filter (fun p => p.1.name != "backend".toList)).map (fun p => showCmdKey p.1 ++ "=" ++ showV p.2))) ++ "#" ++
+  (match x.1.intro with | none => "-" | some s => showIntro s)
+
+def runCmds : Dir → List String → List String
+  | _, [] => []
+  | d, f :: r =>
+    match parseCmd f with
+    | none => ["bad-op"]
+    | some c => let x := step d c; showObs x :: runCmds x.1 r
+
+def handle (cmd : String) (fs : List String) : String :=
+  match cmd, fs with
+  | "hist", top :: sub :: cmds => "|".intercalate (runCmds (Dir.fresh (parseDefs top) (parseDefs sub)) cmds)
+  | _, _ => "bad-op"
 
 end Driver.Life
